@@ -113,34 +113,35 @@ theorem sim2_steps {M : Type} {mc : Machine M} {P1 P2 : List PCmd} (hlt : LabelT
   | step hs _ ih => exact Steps.trans (sim2_step hlt h2 hs) ih
 
 /-- what `assembleProto` consists of -/
-theorem assembleProto_inv {exc : List (String × Nat)} {n : Nat} {P P2 : List PCmd}
-    (h : assembleProto exc n P = .ok P2) :
-    ∃ P1, rcAll ⟨exc, n, currentRegisters (makeArgsOperands P)⟩ (makeArgsOperands P) = .ok P1 ∧
+theorem assembleProto_inv {exc : List (String × Nat)} {n : Nat} {P P2 : List PCmd} {reserved : List Reg}
+    (h : assembleProto exc n P reserved = .ok P2) :
+    ∃ P1, rcAll ⟨exc, n, currentRegisters (makeArgsOperands P) ++ reserved⟩ (makeArgsOperands P) = .ok P1 ∧
       assignBranchLabels P1 = .ok P2 := by
   simp only [assembleProto, replaceConstants] at h
-  cases h1 : rcAll ⟨exc, n, currentRegisters (makeArgsOperands P)⟩ (makeArgsOperands P) with
+  cases h1 : rcAll ⟨exc, n, currentRegisters (makeArgsOperands P) ++ reserved⟩ (makeArgsOperands P) with
   | error e => simp [h1] at h
   | ok P1 => simp only [h1] at h; exact ⟨P1, rfl, h⟩
 
 /-- the scratch set of a program: the `R i`, `i < n`, that the program does not name -/
-abbrev AgreeOutsideScratch {M : Type} (n : Nat) (P : List PCmd) (s t : State M) : Prop :=
-  Agree n (currentRegisters P) s t
+abbrev AgreeOutsideScratch {M : Type} (n : Nat) (P : List PCmd) (s t : State M) (reserved : List Reg := []) :
+    Prop :=
+  Agree n (currentRegisters P ++ reserved) s t
 
 section
-variable {M : Type} {mc : Machine M} {exc : List (String × Nat)} {n : Nat} {P P2 : List PCmd}
+variable {M : Type} {mc : Machine M} {exc : List (String × Nat)} {n : Nat} {P P2 : List PCmd} {reserved : List Reg}
 
 theorem sim_step (hs : SetOk mc) (hcov : ExcCovers mc exc) (hlt : LabelTargets mc P)
-    (hA : assembleProto exc n P = .ok P2) {s s' t : State M} {i i' : Nat}
-    (hstep : step mc P s i = .next s' i') (hag : AgreeOutsideScratch n P s t) :
-    ∃ t', Steps mc P2 (t, tpos exc P i) (t', tpos exc P i') ∧ AgreeOutsideScratch n P s' t' := by
+    (hA : assembleProto exc n P reserved = .ok P2) {s s' t : State M} {i i' : Nat}
+    (hstep : step mc P s i = .next s' i') (hag : AgreeOutsideScratch n P s t reserved) :
+    ∃ t', Steps mc P2 (t, tpos exc P i) (t', tpos exc P i') ∧ AgreeOutsideScratch n P s' t' reserved := by
   obtain ⟨P1, h1, h2⟩ := assembleProto_inv hA
   have hna := noArgs_makeArgs P
   have hlt0 := labelTargets_makeArgs hlt
   have hstep0 : step mc (makeArgsOperands P) s i = .next s' i' := by rw [step_makeArgs]; exact hstep
-  have hag0 : Agree n (currentRegisters (makeArgsOperands P)) s t := by
+  have hag0 : Agree n (currentRegisters (makeArgsOperands P) ++ reserved) s t := by
     rw [currentRegisters_makeArgs]; exact hag
-  obtain ⟨t', hst, hag'⟩ := sim1_step (c := ⟨exc, n, currentRegisters (makeArgsOperands P)⟩) hs hcov hna hlt0
-    (fun r hr => currentRegisters_covers' hr) h1 hstep0 hag0
+  obtain ⟨t', hst, hag'⟩ := sim1_step (c := ⟨exc, n, currentRegisters (makeArgsOperands P) ++ reserved⟩) hs hcov hna hlt0
+    (fun r hr => List.mem_append_left _ (currentRegisters_covers' hr)) h1 hstep0 hag0
   have hlt1 := labelTargets_rcAll hs hna hlt0 h1
   have := sim2_steps hlt1 h2 hst
   simp only [tpos_compose hna h1, tpos_makeArgs] at this
@@ -148,9 +149,9 @@ theorem sim_step (hs : SetOk mc) (hcov : ExcCovers mc exc) (hlt : LabelTargets m
   rw [currentRegisters_makeArgs] at hag'; exact hag'
 
 theorem sim_run (hs : SetOk mc) (hcov : ExcCovers mc exc) (hlt : LabelTargets mc P)
-    (hA : assembleProto exc n P = .ok P2) {a b : State M × Nat} (h : Steps mc P a b) :
-    ∀ t, AgreeOutsideScratch n P a.1 t →
-      ∃ t', Steps mc P2 (t, tpos exc P a.2) (t', tpos exc P b.2) ∧ AgreeOutsideScratch n P b.1 t' := by
+    (hA : assembleProto exc n P reserved = .ok P2) {a b : State M × Nat} (h : Steps mc P a b) :
+    ∀ t, AgreeOutsideScratch n P a.1 t reserved →
+      ∃ t', Steps mc P2 (t, tpos exc P a.2) (t', tpos exc P b.2) ∧ AgreeOutsideScratch n P b.1 t' reserved := by
   induction h with
   | refl c => intro t hag; exact ⟨t, .refl _, hag⟩
   | step hst _ ih =>
@@ -160,18 +161,18 @@ theorem sim_run (hs : SetOk mc) (hcov : ExcCovers mc exc) (hlt : LabelTargets mc
     exact ⟨t2, Steps.trans h1 h2, hag2⟩
 
 theorem sim_fault (hs : SetOk mc) (hcov : ExcCovers mc exc) (hlt : LabelTargets mc P)
-    (hA : assembleProto exc n P = .ok P2) {s t : State M} {i k : Nat}
-    (hf : step mc P s i = .fault k) (hag : AgreeOutsideScratch n P s t) :
+    (hA : assembleProto exc n P reserved = .ok P2) {s t : State M} {i k : Nat}
+    (hf : step mc P s i = .fault k) (hag : AgreeOutsideScratch n P s t reserved) :
     ∃ t' j, Steps mc P2 (t, tpos exc P i) (t', j) ∧ step mc P2 t' j = .fault k ∧
-      tpos exc P i ≤ j ∧ j < tpos exc P (i + 1) ∧ AgreeOutsideScratch n P s t' := by
+      tpos exc P i ≤ j ∧ j < tpos exc P (i + 1) ∧ AgreeOutsideScratch n P s t' reserved := by
   obtain ⟨P1, h1, h2⟩ := assembleProto_inv hA
   have hna := noArgs_makeArgs P
   have hlt0 := labelTargets_makeArgs hlt
   have hf0 : step mc (makeArgsOperands P) s i = .fault k := by rw [step_makeArgs]; exact hf
-  have hag0 : Agree n (currentRegisters (makeArgsOperands P)) s t := by
+  have hag0 : Agree n (currentRegisters (makeArgsOperands P) ++ reserved) s t := by
     rw [currentRegisters_makeArgs]; exact hag
-  obtain ⟨t', j, hst, hfj, hlo, hhi, hag'⟩ := sim1_fault (c := ⟨exc, n, currentRegisters (makeArgsOperands P)⟩)
-    hs hcov hna (fun r hr => currentRegisters_covers' hr) h1 hf0 hag0
+  obtain ⟨t', j, hst, hfj, hlo, hhi, hag'⟩ := sim1_fault (c := ⟨exc, n, currentRegisters (makeArgsOperands P) ++ reserved⟩)
+    hs hcov hna (fun r hr => List.mem_append_left _ (currentRegisters_covers' hr)) h1 hf0 hag0
   have hlt1 := labelTargets_rcAll hs hna hlt0 h1
   have hst2 := sim2_steps hlt1 h2 hst
   simp only [tpos_compose hna h1, tpos_makeArgs] at hst2
@@ -185,12 +186,12 @@ theorem sim_fault (hs : SetOk mc) (hcov : ExcCovers mc exc) (hlt : LabelTargets 
   refine ⟨t', tpos2 P1 j, hst2, hf2, hm1, by omega, ?_⟩
   rw [currentRegisters_makeArgs] at hag'; exact hag'
 
-theorem sim_halt (hA : assembleProto exc n P = .ok P2) {s t : State M} {i : Nat}
+theorem sim_halt (hA : assembleProto exc n P reserved = .ok P2) {s t : State M} {i : Nat}
     (hh : step mc P s i = .halt) : step mc P2 t (tpos exc P i) = .halt := by
   obtain ⟨P1, h1, h2⟩ := assembleProto_inv hA
   have hna := noArgs_makeArgs P
   have hh0 : step mc (makeArgsOperands P) s i = .halt := by rw [step_makeArgs]; exact hh
-  have a := sim1_halt (c := ⟨exc, n, currentRegisters (makeArgsOperands P)⟩) (t := t) h1 hh0
+  have a := sim1_halt (c := ⟨exc, n, currentRegisters (makeArgsOperands P) ++ reserved⟩) (t := t) h1 hh0
   have b := sim2_halt h2 a
   simp only [tpos_compose hna h1, tpos_makeArgs] at b
   exact b
